@@ -81,13 +81,20 @@ def run(ctx):
     # R01.7 the DH equation used by the composition is only assumed for reviewed group operations
     for sn in ctx.suite_names:
         an.group_dh_reviewed(ctx, rep, 'R01.7', sn)
-    # R01.6 no spurious refusals
+    # R01.6 no spurious refusals: a refusal must come from a dependency failure, a MAC comparison, the integer encoder, or the one
+    # comparison between honest values that the protocol defines — the reflected-value test between the client's blinded element and the
+    # response's evaluation element (two different group elements in every honest run, up to a negligible coincidence).  A comparison of
+    # any other pair of values that *decides* an Err (seed C01/e: "server nonce equals client nonce") is a refusal honest runs can hit.
     for sn in ctx.suite_names:
         for which in ('creg_start', 'creg_finish', 'sreg_start', 'clog_start', 'clog_finish', 'slog_start', 'slog_finish'):
             s = api_summary(ctx, sn, which)
             w = where_of(s)
+            ev = None
+            if which in ('clog_finish', 'creg_finish'):
+                ev = role_term(ctx, sn, s, {'clog_finish': 3, 'creg_finish': 4}[which], Sym('response'), 'eval')
             for q in s.err_paths:
                 cause = False
+                bad_cmp = []
                 for e in q.events:
                     if e[0] == 'outcome' and e[2] in ('Err', 'None'):
                         cause = True
@@ -95,10 +102,36 @@ def run(ctx):
                         cause = True
                     elif e[0] == 'I2OSP' and e[1] == 'Err':
                         cause = True
-                    elif e[0] == 'assume' and e[1][0] == 'app' and e[1][1] in ('ct_eq', 'eq'):
-                        cause = True
-                rep.ob('R01.6', '%s: every Err return has a dependency failure, failed comparison or encoder refusal as its cause' % which, cause,
+                    elif e[0] == 'assume' and e[1][0] == 'app' and e[1][1] in ('ct_eq', 'eq') and len(e[1][2]) == 2:
+                        x, y = e[1][2]
+                        is_mac = any(t is not None and t[0] == 'app' and t[1] == 'Mac' for t in (x, y))
+                        other = y if x == ev else (x if y == ev else None)
+                        is_refl = ev is not None and other is not None and other[0] == 'fld' and is_whole_field_of(other, Sym('self'))
+                        if e[2] == 1 and is_refl:
+                            cause = True                      # ReflectedValueError
+                        elif is_mac and e[2] == 0:
+                            cause = True                      # a MAC comparison written with ct_eq / ==
+                        elif not is_refl and not is_mac and not (x[0] == 'int' or y[0] == 'int' or x[0] == 'bytes' or y[0] == 'bytes'):
+                            bad_cmp.append((show(e[1])[:120], e[2]))
+                rep.ob('R01.6', '%s: every Err return has a dependency failure, a failed MAC/reflection comparison or an encoder refusal as its cause' % which, cause,
                        'Err(%s) is reached through crate-local tests only: %s' % (show(q.payload)[:120], [(show(e[1])[:100], e[2]) for e in q.events if e[0] == 'assume'][:4]), w, sn)
+            # comparisons between two run-time values, on any path, other than MAC and reflection tests: none exists today; a new one is a
+            # refusal (or acceptance) condition on honest values that nothing in the protocol defines
+            cmps = set()
+            for q in s.paths:
+                for e in q.events:
+                    if e[0] == 'assume' and e[1][0] == 'app' and e[1][1] in ('ct_eq', 'eq') and len(e[1][2]) == 2:
+                        x, y = e[1][2]
+                        if any(t[0] in ('int', 'bytes', 'zero') for t in (x, y) if t is not None) or x is None or y is None:
+                            continue
+                        if any(t[0] == 'app' and t[1] in ('Mac', 'identity_elem') for t in (x, y)):
+                            continue
+                        other = y if x == ev else (x if y == ev else None)
+                        if ev is not None and other is not None and other[0] == 'fld' and is_whole_field_of(other, Sym('self')):
+                            continue
+                        cmps.add(show(e[1])[:160])
+            rep.ob('R01.6', '%s: no comparison between two run-time values other than the MAC and reflected-value tests decides the outcome' % which, not cmps,
+                   'comparisons: %s' % sorted(cmps)[:3], w, sn)
     ns = len(suites)
     rep.floor('R01.1', 'honest MAC comparisons established', n_mac, 3 * 16 * ns)
     rep.floor('R01.2', 'agreeing keys', n_keys, 3 * 16 * ns)
